@@ -370,13 +370,21 @@ func (e errGlyphOutOfRange) Error() string {
 	return fmt.Sprintf("out of range glyph %d", e)
 }
 
+type errInvalidGlyf int
+
+func (e errInvalidGlyf) Error() string {
+	return fmt.Sprintf("invalid 'glyf' data for glyph %d", e)
+}
+
 // apply variation when needed
 func (f *Face) glyphDataFromGlyf(glyph gID) (GlyphOutline, error) {
 	if int(glyph) >= len(f.glyf) {
 		return GlyphOutline{}, errGlyphOutOfRange(glyph)
 	}
 	var points []contourPoint
-	f.getPointsForGlyph(glyph, 0, &points)
+	if !f.getPointsForGlyph(glyph, 0, &points) {
+		return GlyphOutline{}, errInvalidGlyf(glyph)
+	}
 	segments := buildSegments(points[:len(points)-phantomCount])
 	return GlyphOutline{Segments: segments}, nil
 }
